@@ -59,6 +59,43 @@ fn read_matches(ctx: &RunCtx, exp: &MRead, got: &anyhow::Result<ReadResult<Bytes
     }
 }
 
+/// Records that may or may not be visible (operations that failed, were cancelled or are still
+/// running as detached closures), at most four.
+pub fn optional_set(ctx: &RunCtx, phys: &BTreeMap<usize, Vec<PhysRec>>) -> Vec<(usize, u64)> {
+    let mut optional: Vec<(usize, u64)> = ctx.optional_records.borrow().iter().copied().collect();
+    let uids = ctx.cancelled.borrow();
+    for (b, v) in phys.iter() {
+        for r in v.iter() {
+            if r.complete && r.tag.map(|t| uids.contains(&t.uid)).unwrap_or(false) && !optional.contains(&(*b, r.offset)) {
+                optional.push((*b, r.offset));
+            }
+        }
+    }
+    optional.truncate(4);
+    optional
+}
+
+/// Every admissible set of visible records: all complete records of attached blobs, with each
+/// subset of the optional records left out.
+pub fn admissible_record_sets<'a>(phys: &'a BTreeMap<usize, Vec<PhysRec>>, attached: &BTreeSet<usize>, optional: &[(usize, u64)]) -> Vec<Vec<&'a PhysRec>> {
+    let base: Vec<&PhysRec> = phys.iter().filter(|(b, _)| attached.contains(b)).flat_map(|(_, v)| v.iter()).filter(|r| r.complete && r.header_crc_ok).collect();
+    let mut out = Vec::new();
+    for mask in 0..(1u32 << optional.len()) {
+        let recs: Vec<&PhysRec> = base
+            .iter()
+            .copied()
+            .filter(|r| match optional.iter().position(|o| *o == (r.blob, r.offset)) {
+                Some(i) => mask & (1 << i) != 0,
+                None => true,
+            })
+            .collect();
+        out.push(recs);
+    }
+    // the full set first
+    out.reverse();
+    out
+}
+
 /// Full comparison of every query method with the model, for every key of the key space.
 /// `phase` selects the properties a mismatch is attributed to and how tolerant the comparison is.
 pub async fn check_all_queries<K>(ctx: &Rc<RunCtx>, storage: &Storage<K>, phase: &str, uid: u32)
@@ -89,38 +126,26 @@ where
     }
 
     // ---- views
-    let mut optional: Vec<(usize, u64)> = if tolerant { ctx.optional_records.borrow().iter().copied().collect() } else { vec![] };
-    if tolerant {
-        // records of cancelled operations may still be appended by their detached closures
-        let uids = ctx.cancelled.borrow();
-        for (b, v) in phys.iter() {
-            for r in v.iter() {
-                if r.complete && r.tag.map(|t| uids.contains(&t.uid)).unwrap_or(false) && !optional.contains(&(*b, r.offset)) {
-                    optional.push((*b, r.offset));
-                }
-            }
-        }
-    }
-    let optional: Vec<(usize, u64)> = optional.into_iter().take(4).collect();
-    let base: Vec<&PhysRec> = phys.iter().filter(|(b, _)| attached.contains(b)).flat_map(|(_, v)| v.iter()).filter(|r| r.complete && r.header_crc_ok).collect();
-    let mut views: Vec<View> = Vec::new();
-    for mask in 0..(1u32 << optional.len()) {
-        let recs: Vec<&PhysRec> = base
-            .iter()
-            .copied()
-            .filter(|r| match optional.iter().position(|o| *o == (r.blob, r.offset)) {
-                Some(i) => mask & (1 << i) != 0,
-                None => true,
-            })
-            .collect();
-        views.push(View::from_recs(recs));
-    }
+    let optional: Vec<(usize, u64)> = if tolerant { optional_set(ctx, &phys) } else { vec![] };
+    let sets = admissible_record_sets(&phys, &attached, &optional);
+    let base: Vec<&PhysRec> = sets[0].clone();
+    let views: Vec<View> = sets.into_iter().map(View::from_recs).collect();
     let full_view = View::from_recs(base.clone());
     let mut state_h = ctx.state_hash.get();
+    // keys that have a partially written record (header intact) left by a failed write in an
+    // attached blob: with data validation off the next start indexes such a record
+    let hl = record_header_len(ctx.key_len) as u64;
+    let partial_keys: BTreeSet<Vec<u8>> = if tolerant {
+        phys.iter().filter(|(b, _)| attached.contains(b)).flat_map(|(_, v)| v.iter()).filter(|r| !r.complete && r.header_crc_ok && r.bytes_written >= hl).map(|r| r.key.clone()).collect()
+    } else {
+        BTreeSet::new()
+    };
 
     for ki in 0..plan.n_keys {
         let kb = key_bytes(ki, ctx.key_len);
         let key: K = K::from(kb.clone());
+        let nviol_before_key = ctx.violations.borrow().len();
+        let is_partial_key = partial_keys.contains(&kb);
         // ---- ask everything once
         let read = tagged(&world, tag, storage.read(&key)).await;
         let contains = tagged(&world, tag, storage.contains(&key)).await.map(|r| r.map(|t| Into::<u64>::into(t)));
@@ -318,6 +343,16 @@ where
         }
         if stored && ans.combined_filter == Some(pearl::FilterResult::NotContains) {
             ctx.violate(&["C10"], "filter-false-negative", "get_filter().contains_fast answered NotContains for a stored key", format!("phase={} key={}; {}", phase, ki, note));
+        }
+        // one defect, one report: mismatches of a key that has a partially written record collapse
+        // into a single finding
+        if is_partial_key && ctx.violations.borrow().len() > nviol_before_key {
+            let first_detail = ctx.violations.borrow()[nviol_before_key].detail.clone();
+            ctx.violations.borrow_mut().truncate(nviol_before_key);
+            if !ctx.partial_reported.get() {
+                ctx.partial_reported.set(true);
+                ctx.violate(&["C11"], "partial-record-indexed", "a partially written record left by a failed write is indexed at the next start (data validation off) and shadows or pollutes the answers for its key", first_detail);
+            }
         }
     }
     ctx.state_hash.set(state_h);
